@@ -1,8 +1,10 @@
 #!/bin/bash
 # seedmatrix.sh: runs every stored seeded change against its property's quick check at /repo HEAD
-# (4 scratch worktrees in parallel) and writes /verif/seeded/RESULTS.txt
+# (4 scratch worktrees in parallel) and writes /verif/seeded/RESULTS.txt.
+# seedmatrix.sh [regex]: only the seeds matching regex are (re-)run; their lines replace the old ones.
 cd /verif
-ls seeded | grep -E '^C[0-9]+-mut' > /tmp/seedlist.txt
+PAT=${1:-'^C[0-9]+[a-z]?-mut'}
+ls seeded | grep -E '^C[0-9]+[a-z]?-mut' | grep -E "$PAT" > /tmp/seedlist.txt
 rm -f /tmp/seedmatrix.*.out
 run_slice() {
   i=$1
@@ -18,6 +20,9 @@ run_slice() {
 }
 for i in 0 1 2 3; do run_slice $i & done
 wait
-cat /tmp/seedmatrix.*.out | grep "^\[C" | grep " vs " | sort > seeded/RESULTS.txt
+cat /tmp/seedmatrix.*.out | grep "^\[C" | grep " vs " | sort > /tmp/seedmatrix.new
+touch seeded/RESULTS.txt
+( grep -v -F -f <(sed 's/ vs .*/ vs /' /tmp/seedmatrix.new) seeded/RESULTS.txt; cat /tmp/seedmatrix.new ) | sort -u > /tmp/seedmatrix.merged
+cp /tmp/seedmatrix.merged seeded/RESULTS.txt
 for i in 0 1 2 3; do git -C /repo worktree remove --force /tmp/wt/mine$i 2>/dev/null; done
 cat seeded/RESULTS.txt
